@@ -313,7 +313,7 @@ func (m *Machine) swapElems(sl Slice, i, j int) {
 }
 
 func registerSortIntrinsics(reg func(string, intrinsicFn)) {
-	i64 := func(n int) Value { return mkInt(64, uint64(int64(n))) }
+	i64 := func(n int) Value { return boxInt(64, uint64(int64(n))) }
 	sliceSort := func(stable bool) intrinsicFn {
 		return func(m *Machine, c *frame, fn *ssa.Function, a []Value) (Value, bool) {
 			iv := a[0].(Iface)
